@@ -11,6 +11,9 @@ fs = import('fs')
 if fs.exists(meson.current_source_dir() / 'FAIL')
   error('injected configuration failure')
 endif
+if fs.exists(meson.current_source_dir() / 'FAILLATE')
+  meson.add_postconf_script(find_program('python3'), '-c', 'import sys; sys.exit(1)')
+endif
 """
 SUB_BUILD = "project('sub')\n"
 SUB_OPTIONS = "option('level', type: 'string', value: 'sublevel', yield: true)\noption('mode', type: 'combo', choices: ['a', 'b', 'c'], value: 'b', yield: true)\n"
@@ -67,7 +70,7 @@ def persisted(build, names):
 
 
 STEPS = [('conf', 'level', 'one'), ('conf', 'level', 'two'), ('conf', 'mode', 'a'), ('conf', 'mode', 'b'), ('conf-bad',), ('conf-sub', 'static'), ('conf-sub', 'both'),
-         ('unset-sub',), ('conf-subopt', 'mine'), ('conf-subopt', 'one'), ('unset-subopt',), ('edit', 'level-default'), ('edit', 'mode-choices'), ('edit', 'add-extra'), ('edit', 'remove-extra'), ('edit', 'sub-mode-choices'), ('reconf',), ('reconf-fail',), ('wipe',),
+         ('unset-sub',), ('conf-subopt', 'mine'), ('conf-subopt', 'one'), ('unset-subopt',), ('edit', 'level-default'), ('edit', 'mode-choices'), ('edit', 'add-extra'), ('edit', 'remove-extra'), ('edit', 'sub-mode-choices'), ('reconf',), ('reconf-fail',), ('reconf-fail-late',), ('wipe',),
          ('reconf-D', 'level', 'three'), ('conf-global', 'static')]
 
 
@@ -203,6 +206,13 @@ def run_sequence(seq):
                 open(os.path.join(src, 'FAIL'), 'w').write('x')
                 rc, out = meson(['setup', '--reconfigure', '-Dlevel=lost', build, src])
                 os.unlink(os.path.join(src, 'FAIL'))
+                must_succeed = False
+            elif kind == 'reconf-fail-late':
+                # the configuration itself succeeds and is written out, THEN a post-configuration script fails: everything
+                # persisted must be as before the command
+                open(os.path.join(src, 'FAILLATE'), 'w').write('x')
+                rc, out = meson(['setup', '--reconfigure', build, src])
+                os.unlink(os.path.join(src, 'FAILLATE'))
                 must_succeed = False
             elif kind == 'wipe':
                 snapshot = (dict(m.values), m.glob, m.over, m.sublevel)
@@ -357,7 +367,8 @@ def run(REG, tier, seed, jobs):
     else:
         seqs += list(itertools.product(STEPS, repeat=3)) + [tuple(rnd.choice(STEPS) for _ in range(rnd.randint(4, 9))) for _ in range(6000)]
     # directed histories that ordinary use does not produce
-    seqs += [(('edit', 'mode-choices'), ('reconf',), ('conf', 'mode', 'b'), ('reconf',)), (('edit', 'sub-mode-choices'), ('reconf',), ('conf', 'mode', 'b')),
+    seqs += [(('conf', 'level', 'two'), ('reconf-fail-late',), ('reconf',)), (('conf-sub', 'static'), ('conf', 'mode', 'b'), ('reconf-fail-late',)),
+             (('edit', 'mode-choices'), ('reconf',), ('conf', 'mode', 'b'), ('reconf',)), (('edit', 'sub-mode-choices'), ('reconf',), ('conf', 'mode', 'b')),
              (('conf', 'level', 'one'), ('edit', 'level-default'), ('reconf',), ('wipe',)),
              (('conf-sub', 'static'), ('wipe',)), (('conf-sub', 'static'), ('unset-sub',), ('wipe',)),
              (('edit', 'mode-choices'), ('reconf',), ('conf', 'mode', 'b'), ('wipe',)),
